@@ -27,7 +27,7 @@ type cfgSeq struct {
 func seqValue(api string, i int) *Val {
 	switch api {
 	case "json", "sjson":
-		return strVal(fmt.Sprintf(`{"call":%d,"k":["v"]}`, i))
+		return strVal(fmt.Sprintf(`{"call":%d,"k":["v",1,2,3],"short":[1,2]}`, i))
 	case "yaml":
 		return strVal(fmt.Sprintf("call: %d\nk:\n  - v\n", i))
 	}
@@ -57,6 +57,16 @@ func cfgSeqScenario(id string, cs *cfgSeq, update *bool, jsonCfg *JSONCfg, mode 
 	}
 	sc.Procs = append(sc.Procs, &Proc{Spec: procSpec("default"), Steps: mk()})
 	sc.Procs = append(sc.Procs, &Proc{Spec: procSpec(mode), Steps: mk()}) // replay: same locations again
+	// the same calls, each through a FRESH Config built from the same options: where a call stores
+	// and how it formats must not depend on what went through the shared Config before
+	fresh := mk()
+	for _, st := range fresh {
+		if st.Op == "match" {
+			st.Fresh = true
+		}
+	}
+	sc.Procs = append(sc.Procs, &Proc{Spec: procSpec("ci"), Steps: fresh})
+	sc.Tags = append(sc.Tags, "also:C12")
 	sc.Note = fmt.Sprintf("shared Config {filename=%q ext=%q update=%v json=%v} sequence %v; then %s", cs.Opts.Filename, cs.Opts.Ext, update != nil, jsonCfg != nil, cs.Seq, mode)
 	return sc
 }
@@ -101,6 +111,9 @@ func checkC12(c *CheckCtx) error {
 			upd = bp(false)
 		case 3:
 			jc = &JSONCfg{Width: 20, Indent: "    ", SortKeys: false}
+			if n%8 == 3 {
+				jc = &JSONCfg{Width: 0, Indent: " ", SortKeys: true} // as in the library's own examples
+			}
 		}
 		mode := []string{"ci", "default", "update"}[n%3]
 		sc := cfgSeqScenario(fmt.Sprintf("q%d", n), cs, upd, jc, mode, n%3)
